@@ -82,7 +82,7 @@ spec fn qparams<'a>(input: DataType<'a>, ctx: ImplContext<'a>) -> Q {
         inner_attr: ctx.struct_attr.inner_attribute.toks(),
         dst: ctx.dst_ty@,
         src: ctx.src_ty@,
-        these: dt_generics(input).toks(),
+        these: arg_form(dt_generics(input)),   // split_for_impl().1
         those: ctx.struct_attr.ty.generics.toks(),
         impl_gens: spec_impl_gens(input, ctx),
         wh: match spec_where_attr(dt_attrs(input).where_attrs@, ctx.struct_attr.ty) {
